@@ -793,13 +793,16 @@ func main() {
 	lap("pool")
 	raceProbe(run, backends)
 	waitQuiet(backends, 3*time.Second)
+	waitStable(backends, time.Second, 15*time.Second)
 	lap("race")
 	session(run, r, backends, tlsBackend, drv)
 	lap("session")
 	limitCases(run, r)
 	lap("limits")
+	waitStable(backends, time.Second, 15*time.Second)
 	listenersCases(run, backends, tlsBackend, ldrv)
 	lap("listeners")
+	waitStable(backends, time.Second, 15*time.Second)
 	inflightCases(run, backends, fdrv)
 	lap("inflight")
 	quiet.collect(run)
@@ -1208,6 +1211,34 @@ func raceProbe(run *vh.Run, backends []*backend) {
 	}
 }
 
+// waitStable returns when no backend has an open connection AND no counter has moved for [still]: a
+// connection that a finished class was still dialling when it closed its channel reaches the backend a
+// little later (begin, then end) -- on a loaded machine after waitQuiet has already seen "all ended" --
+// and would be counted by the class that starts next.
+func waitStable(backends []*backend, still, d time.Duration) {
+	deadline := time.Now().Add(d)
+	snap := func() (int64, bool) {
+		var sum int64
+		ok := true
+		for _, b := range backends {
+			bg, en := atomic.LoadInt64(&b.begins), atomic.LoadInt64(&b.ends)
+			sum += bg + en
+			if bg != en {
+				ok = false
+			}
+		}
+		return sum, ok
+	}
+	for time.Now().Before(deadline) {
+		s0, ok0 := snap()
+		time.Sleep(still)
+		s1, ok1 := snap()
+		if ok0 && ok1 && s0 == s1 {
+			return
+		}
+	}
+}
+
 func waitQuiet(backends []*backend, d time.Duration) {
 	deadline := time.Now().Add(d)
 	for time.Now().Before(deadline) {
@@ -1564,10 +1595,12 @@ func session(run *vh.Run, r *rand.Rand, backends []*backend, tlsBackend *backend
 	turls := append(append([]string{}, burls...), deadBackendURL, tlsBackend.url)
 	unreachablePlain := map[string]bool{deadBackendURL: true, tlsBackend.url: true} // through the plaintext listener
 	downTerm := strsCoq([]string{deadBackendURL})
+	liveTxt := "" // the text of the table in force (what the sentinel's detour restores)
 	setTable := func(txt string) route.Table {
 		if err := d.post("/table", txt); err != nil {
 			panic("driver rejected the table: " + err.Error())
 		}
+		liveTxt = txt
 		t, err := route.NewTable(bytes.NewBufferString(txt))
 		if err != nil {
 			panic(err)
@@ -1656,10 +1689,49 @@ func session(run *vh.Run, r *rand.Rand, backends []*backend, tlsBackend *backend
 			overrun = what
 		}
 	}
+	// WHEN the cleanup loop wakes up is not a function of the clock: the loop is `work; time.Sleep(5 s)`, so
+	// every pass starts a little later than 5 s after the previous one and the lateness adds up (a loaded
+	// machine: hundreds of ms over a dozen passes).  The harness therefore SEES every pass: a backend of
+	// its own that no generated table names (the sentinel) gets one pooled connection between two passes --
+	// a detour outside the recorded history: table + sentinel route, one call, table back; the real state
+	// is then the recorded one plus a pool entry that no observation can see -- and the next pass, whatever
+	// the table, drops that entry and closes the connection shutdown_ms later: its end at the sentinel is
+	// the pass.  The clock is only used to stay clear of the pass beforehand and is set again by every pass seen.
+	sentinel := startBackend(97, false)
+	const shutdownWait = 150 * time.Millisecond // shutdown_ms of startDriver
+	armed := false
+	armSentinel := func() {
+		armed = false
+		if err := d.post("/table", liveTxt+fmt.Sprintf("route add verifsentinel /verif.Sentinel %s opts \"proto=grpc\"\n", sentinel.url)); err != nil {
+			return
+		}
+		doCallT(callers[0], kUnary, "/verif.Sentinel/Pass", metadata.MD{}, [][]byte{{}}, 1, 3*time.Second)
+		if err := d.post("/table", liveTxt); err != nil {
+			panic("driver rejected the table: " + err.Error())
+		}
+		armed = atomic.LoadInt64(&sentinel.begins) > atomic.LoadInt64(&sentinel.ends)
+	}
+	sentinelPasses := 0
 	awaitTick := func() {
 		next := t0.Add(time.Duration(ticks+1) * period)
 		time.Sleep(time.Until(next.Add(500 * time.Millisecond)))
 		ticks++
+		if armed {
+			dl := time.Now().Add(8 * time.Second)
+			for time.Now().Before(dl) && atomic.LoadInt64(&sentinel.begins) != atomic.LoadInt64(&sentinel.ends) {
+				time.Sleep(5 * time.Millisecond)
+			}
+			if atomic.LoadInt64(&sentinel.begins) != atomic.LoadInt64(&sentinel.ends) {
+				if overrun == "" {
+					overrun = "no cleanup pass seen at the sentinel within 8 s"
+				}
+			} else {
+				// the pass that has just been seen started no later than now - shutdown_ms; the next one
+				// starts no earlier than 5 s after that
+				sentinelPasses++
+				t0 = time.Now().Add(-shutdownWait).Add(-time.Duration(ticks) * period)
+			}
+		}
 		// closes follow the tick after at most GRPCGShutdownTimeout: wait until every backend
 		// outside the table has seen all its connections end (or 2 s)
 		in := map[string]bool{}
@@ -1686,7 +1758,13 @@ func session(run *vh.Run, r *rand.Rand, backends []*backend, tlsBackend *backend
 		steps = append(steps, tickTerm)
 		obs = append(obs, observe())
 		ssample = append(ssample, "tick")
+		armSentinel()
 	}
+
+	// the first pass is awaited before anything else: from then on the clock is set by passes seen
+	armSentinel()
+	awaitTick()
+	startTicks, wantTicks = startTicks+1, wantTicks+1
 
 	calls := 0
 	for calls < nCalls {
@@ -1740,6 +1818,7 @@ func session(run *vh.Run, r *rand.Rand, backends []*backend, tlsBackend *backend
 	awaitTick()
 	run.Notes["session_calls"] = calls
 	run.Notes["session_real_ticks"] = ticks - startTicks
+	run.Notes["session_cleanup_passes_seen_at_the_sentinel"] = sentinelPasses
 	if overrun != "" {
 		run.Notes["session_history_not_judged_machine_stalled"] = overrun
 	} else {
